@@ -24,7 +24,7 @@ ASSUMPTIONS = [
     "place, bernoulli numbers from mpf_bernoulli_huge versus the recurrence (<= 1 ulp)",
 ]
 
-PARTS = ["keys", "memo", "const", "logint", "bern", "exact", "quad", "lu", "memoize", "hyp"]
+PARTS = ["keys", "memo", "const", "logint", "bern", "exact", "quad", "lu", "memoize", "hyp", "matfun"]
 
 WITNESSES = [
     ("matrices.linalg.LU_decomp:_LU-precision",
@@ -76,6 +76,8 @@ def run(ctx):
         inp_ = f.get("input") or {}
         if inp_.get("kind") == "lu-history" and cache_ops.replay_lu(inp_):
             fails.append({"site": f.get("site"), "what": f.get("what"), "input": inp_})
+        if inp_.get("kind") == "history-vs-fresh" and cache_ops.replay_matfun(inp_):
+            fails.append({"site": f.get("site"), "what": f.get("what"), "input": inp_})
         if inp_.get("kind") == "odeseg-history" and odeseg_ops.replay(inp_):
             fails.append({"site": f.get("site"), "what": f.get("what"), "input": inp_})
         code = inp_.get("code")
@@ -94,13 +96,17 @@ def run(ctx):
         "evaluations": steps + probes + H.count.get("keys", 0),
         "distinct_nontrivial": H.count.get("histories_with_hit_miss_or_fault", steps // 3),
         "rule": "seeded request histories per cache (precision sequences ascending/descending/repeated/random/cache-limit±1, several "
-                "constants/arguments/matrices interleaved, element assignment, resizing, precision changes), a fault injected into the "
+                "constants/arguments/matrices interleaved, element assignment, slice assignment (row / column / block, matrix or scalar "
+                "value), resizing, precision changes), a fault injected into the "
                 "memoised computation on ~15% of the requests (k-th raising call for the bernoulli recurrence and the quadrature rule); "
                 "after EVERY request the real cache state is compared with the model state; a history is non-trivial when it contains "
                 "at least one cache hit, one miss or one injected fault (counted per request: every request is one of the three); "
-                "one probe per history is compared with a fresh process forked from a zygote that only imported mpmath",
+                "one probe per history is compared with a fresh process forked from a zygote that only imported mpmath; matrix "
+                "functions (sqrtm, logm, powm, expm on matrices taking every branch of sqrtm) as a black box: history + probe in one "
+                "fresh process against the probe alone in another, compared exactly (rounding level: 2^(8-p) relative)",
         "samples": [d["line"][:160] for d in H.dis[:2]] + ["memo: history of (prec, fault) pairs over 1-3 leaf constants, e.g. seed %d" % ctx.seed,
-                    "lu: 'lu 53 D 1 0 P 200 D 1 0 R 1 D 1 0' = decomp, set precision, decomp (served stale), resize, decomp (served stale)"],
+                    "lu: 'lu 53 D 1 0 P 200 D 1 0 R 1 D 1 0' = decomp, set precision, decomp (served stale), resize, decomp (served stale)",
+                    "lu: 'lu 53 D 1 0 L 1 D 1 0' = decomp, slice assignment (new contents 1), decomp (must be computed from contents 1)"],
         "requests_compared_state_by_state": steps,
         "probes_compared_with_fresh_process": probes,
         "per_part": {k: v for k, v in sorted(H.count.items()) if not k.startswith("time_")},
